@@ -88,10 +88,27 @@ def glued_project(rng):
     return {"main.asm": "\n".join(lines) + "\n"}, sites[:8], {"alias": None, "how": "glued-to-brace", "levels": 1}
 
 
+def dead_macro_project(rng):
+    """One file with a macro that is never invoked (the server analyses its body without parameter values) whose straight-line
+    body uses an outer constant and an outer label next to its parameter, on either side of a binary operator. The names are
+    unique in the file, so after a rename the old name must be gone from the text."""
+    bar = rng.choice(["bar", "colour", "width"]) + str(rng.randrange(10))
+    lab = rng.choice(["table", "entry", "spot"]) + str(rng.randrange(10))
+    body = ["lda #arg + %s" % bar, "lda #%s + arg" % bar, "ldx #%s" % bar, "sta %s + arg" % lab, "sta arg + %s" % lab,
+            ".byte arg, %s" % bar, ".word arg * 2 + %s" % lab, "lda #arg - (%s * 2)" % bar, "jmp %s" % lab]
+    rng.shuffle(body)
+    body = body[:rng.randrange(3, len(body) + 1)]
+    lines = [".const %s = 3" % bar, ".macro never(arg) {"] + ["    " + b for b in body] + ["}", "%s:" % lab, "    lda #%s" % bar, "    jmp %s" % lab]
+    n = len(lines)
+    sites = [(bar, "main.asm", 0, 7, 7 + len(bar)), (bar, "main.asm", n - 2, 9, 9 + len(bar)),
+             (lab, "main.asm", n - 3, 0, len(lab)), (lab, "main.asm", n - 1, 8, 8 + len(lab))]
+    return {"main.asm": "\n".join(lines) + "\n"}, sites, {"alias": None, "how": "never-invoked-macro-body", "levels": 1}
+
+
 def chain_cases(acc, probe, rng, count, project=chain_project):
     """Renames through import chains: judged by meaning (the edited project assembles to the same bytes without diagnostics,
     no edit has an empty text, the definition and the import statement carry the new name) and by the round trip."""
-    tag = "import-chain" if project is chain_project else "glued-to-brace"
+    tag = {chain_project: "import-chain", glued_project: "glued-to-brace"}.get(project, "never-invoked-macro-body")
     viol = lambda sig, *rest: acc.violation(sig.replace("import-chain", tag), *rest)
     for _ in range(count):
         files, sites, info = project(rng)
@@ -174,6 +191,7 @@ def shard(idx, n, seed, tier, params):
     t_end = time.time() + params["budget"]
     chain_cases(acc, probe, rng, max(1, params["chains"] // n))
     chain_cases(acc, probe, rng, max(1, params["glued"] // n), project=glued_project)
+    chain_cases(acc, probe, rng, max(1, params["glued"] // n), project=dead_macro_project)
     for i in range(params["programs"] // n):
         if time.time() > t_end:
             acc.count("budget_cut")
@@ -331,7 +349,9 @@ def main(tier, seed):
              "imports with and without `as` below the root file, re-exported through `*`, `* as`, specific and aliased imports) are "
              "renamed at every occurrence and judged by meaning, non-empty edits and the round trip; the same judgement for "
              "one-file projects whose macro invocations touch the opening brace of the enclosing block (`b: {emit()}`, macro "
-             "defined before or after), asked at the first and at an inner character of the use. Non-trivial = distinct rename "
+             "defined before or after), asked at the first and at an inner character of the use, and for one-file projects with a never-invoked macro "
+             "whose straight-line body uses an outer constant and label next to its parameter (unique names: the old name must be "
+             "gone from the text). Non-trivial = distinct rename "
              "whose result preserved the bytes.",
-        assumptions=["symbols with uses inside never-invoked macros or zero-iteration loops are not renamed by the check (the server cannot bind those uses)",
+        assumptions=["in the generated projects, symbols with uses inside never-invoked macros or zero-iteration loops are not renamed by the check (the server cannot bind uses behind a condition without a value); straight-line never-invoked bodies are judged by the hand-built cases",
                      "new names are fresh; a name equal to one in an unrelated scope is not yet exercised"])
